@@ -21,7 +21,7 @@ RULE = ("(a) router worlds: 2-4 routers built by 3-14 declarations (names and qu
         "which job, and place/payload/parameters of every non-executed message; (b) in-memory broker histories with foreign "
         "topics in shared queues (C11 oracles of the shared history runner). Distinct by the printed Coq case; non-trivial = the "
         "world contains an override or a job whose queue differs from its actor's queue")
-TRUSTED = ["in-memory broker only for the dispatch runs; the Redis prefix filter and the RabbitMQ reject+requeue filter are not covered",
+TRUSTED = ["worker dispatch runs on the in-memory broker; the RabbitMQ reject+requeue filter is exercised at the broker API over harness/fakeamqp.py = coq/AmqpSrv.v (written from the documentation, not compared with a real server)",
            "actors use BasicConverter and take the job number as their only argument"]
 ASSUMPTIONS = ["an expired foreign message may be dead-lettered by any consumer of its queue (C12), not counted here"]
 WHICH = {"C11"}
